@@ -105,7 +105,12 @@ let () =
         let kv = parse_kv (List.tl (split l)) in
         hist := List.assoc "id" kv; switch := (List.assoc "switch" kv = "1");
         hist_meta := Printf.sprintf "gen=%s seed=%s" (List.assoc "gen" kv) (List.assoc "seed" kv);
-        listeners := []; step_no := 0; cur_op := None; cur_st := []; pre_lines := []
+        listeners := []; step_no := 0; cur_op := None; cur_st := []; pre_lines := [];
+        (* the harness is a default build (no link flags) that links the application: the switch must be off *)
+        if !switch then begin
+          incr checkfails;
+          Printf.printf "CHECK hist=%s step=0 prop=C10 checker=default_build_switch op=[] detail=[keeper.EnableAddAllowedBidder is true at run time in a binary built without the testing link flag] %s\n" !hist !hist_meta
+        end
       end
       else if starts_with "OP " l then begin
         cur_op := Some l; orc := []; res := ("", ""); xs := []; hs := []; gen := ""; fault := false; qr := []
